@@ -17,12 +17,12 @@ PROPS = {
         "assumptions": [],
     },
     "C02": {
-        "units": [("align", r"match_node_impl|match_nodes_impl_recursive|may_match_ellipsis_impl|match_single_node_while_skip_trivial"), ("strictness", r"Aggregator>::match_terminal")],
+        "units": [("align", r"match_node_impl|match_nodes_impl_recursive|may_match_ellipsis_impl|match_single_node_while_skip_trivial"), ("strictness", r"Aggregator>::match_terminal|Aggregator>::match_meta_var|match_leaf_meta_var")],
         "kani": [],
-        "decided": ["the last clause of the property -- code free of the `$` sigil matches itself: if the pattern tree mirrors the node (same kinds, same token text, same shape; what convert_node_to_pattern builds for a node without holes and without MISSING children) then match_node_impl answers MatchedBoth at EVERY strictness level, for every tree (unbounded; proved through the real mutually recursive alignment engine, relative to an aggregator that accepts tokens, which unit strictness proves for both aggregators)"],
-        "not_decided": ["patterns WITH holes ($VAR / $$$VAR replacing sub-expressions): needs the binding model of the aggregator threaded through the alignment (not built)",
-                        "that the pattern text parses to the same tree shape as the code (23 tree-sitter grammars behind FFI) and convert_node_to_pattern / extract_meta_var produce the mirror tree: outside both verifiers"],
-        "assumptions": ["T-node: children lists and token text as reported by tree-sitter"],
+        "decided": ["if the pattern tree mirrors the node -- same kinds, same token text, same shape, with any number of sub-trees replaced by distinct `$VAR` holes that are not bound yet (a hole marked as named replacing a named node) -- then match_node_impl answers MatchedBoth at EVERY strictness level and the environment grows by exactly {hole -> the sub-tree it replaced}; in particular code free of `$` matches itself (unbounded; proved through the real mutually recursive alignment engine against the trait-level Aggregator contract, which unit strictness discharges for Cow<MetaVarEnv> via match_leaf_meta_var and MetaVarEnv::insert's contract)"],
+        "not_decided": ["`$$$VAR` replacing a trailing run of siblings (the ellipsis path is only proved sound, C03)",
+                        "that the pattern text parses to the same tree shape as the code (23 tree-sitter grammars behind FFI) and that convert_node_to_pattern / extract_meta_var produce the mirror tree: outside both verifiers"],
+        "assumptions": ["T-node: children lists and token text as reported by tree-sitter", "MetaVarEnv::insert accepts a free name (unit meta_var proves insert against match_variable)"],
     },
     "C03": {
         "units": [("strictness", r"^(?!<Cow as Aggregator>::match_meta_var)"), ("pattern", r"match_node_impl|match_node_non_recursive|get_match_len"), "align"],
